@@ -7,7 +7,7 @@ CONSTANTS
   Conns = {"c1"}
   Keys = {"A", "B"}
   KeyOf <- MC_KeyOf
-  SvcScript <- MC_ScriptFull
+  Script = "full"
   Causes = {"close", "disc_id", "disc_key", "shutdown", "displaced"}
   QuiescentEnv = TRUE
   Paths = {"km", "challenge"}
